@@ -49,7 +49,10 @@ class TimeoutFamily:
         for i, t in enumerate(times):
             if answer_at == i:
                 ops += [{'op': 'act', 'target': {'pid': 'p1', 'key': 'k1', 'state': 'interrupted'}, 'action': rng.choice(['next', 'next', 'skip', 'error']), 'options': {'ecode': 'e1'}}, {'op': 'quiesce'}, {'op': 'snapshot', 'level': 'live'}]
-            ops += [{'op': 'advance_to', 'target': target, 'ms': t}, {'op': 'tick'}, {'op': 'snapshot', 'level': 'live'}]
+            ops += [{'op': 'advance_to', 'target': target, 'ms': t}]
+            if opts.get('evict', True) and rng.random() < 0.25:
+                ops.append({'op': 'evict'})          # the process is not cached when the tick comes
+            ops += [{'op': 'tick'}, {'op': 'snapshot', 'level': 'live'}]
         if answer_at == len(times):
             ops += [{'op': 'act', 'target': {'pid': 'p1', 'key': 'k1', 'state': 'interrupted'}, 'action': 'next'}, {'op': 'quiesce'}]
         ops += [{'op': 'advance', 'ms': 1000}, {'op': 'tick'}, {'op': 'tick'}, {'op': 'snapshot', 'level': 'live'}]
@@ -116,7 +119,13 @@ class TimeoutFamily:
                                 others = sorted(ms(x) for x in ons if ms(x) <= ta - s)
                                 out.append(V('C19', 'fired-early', f"{m['level']}:{'another-rule-due' if others else 'nothing-due'}", f"rule {on} fired after {ta - s} ms (limit {L} ms)", scenario=sid))
                         elif must:
-                            out.append(V('C19', 'not-fired-when-due', m['level'], f"rule {on} did not fire at a tick {tb - s} ms after the task opened (limit {L} ms, task {task['state']})", scenario=sid))
+                            cached = True
+                            for op_ in sc['ops'][:o['i']]:
+                                if op_['op'] == 'evict':
+                                    cached = False
+                                elif op_['op'] in ('act', 'advance_to'):
+                                    cached = True       # looking the task up / acting on it reloads the process
+                            out.append(V('C19', 'not-fired-when-due', m['level'] + ('' if cached else ':process-not-cached-at-tick'), f"rule {on} did not fire at a tick {tb - s} ms after the task opened (limit {L} ms, task {task['state']})", scenario=sid))
                         else:
                             obs['c19.not-due'] += 1
                     # a firing does not close the timed task
